@@ -166,6 +166,10 @@ pub struct ArchOpts {
     /// (bit rot): reading that member must fail, never return bytes the tree does not hold
     #[serde(default)]
     pub damage: Option<u16>,
+    /// file members whose bit (member index mod 16) is set are spelled `zz/../<path>` (archivers keep such
+    /// names; both archive sources resolve `..` while indexing)
+    #[serde(default)]
+    pub dotdot_mask: u16,
 }
 
 #[derive(Debug, Clone)]
@@ -216,6 +220,16 @@ pub fn members(m: &Model, o: &ArchOpts) -> Vec<Member> {
     v
 }
 
+fn file_member_name(id: &str, ext: &str, o: &ArchOpts, k: usize) -> String {
+    let plain = member_name(id, Some(ext), false, false);
+    let s = if (o.dotdot_mask >> (k % 16)) & 1 == 1 { format!("zz/../{plain}") } else { plain };
+    if o.dot_prefix {
+        format!("./{s}")
+    } else {
+        s
+    }
+}
+
 fn member_name(id: &str, ext: Option<&str>, dot: bool, dir: bool) -> String {
     let mut s = rel_path(id, ext).to_str().unwrap().to_string();
     if dot {
@@ -236,7 +250,7 @@ pub fn make_zip(m: &Model, o: &ArchOpts) -> Vec<u8> {
             }
             Member::File(id, ext) | Member::StaleFile(id, ext) => {
                 let method = if (o.deflate_mask >> (k % 16)) & 1 == 1 { zip::CompressionMethod::Deflated } else { zip::CompressionMethod::Stored };
-                w.start_file(member_name(id, Some(ext), o.dot_prefix, false), zip::write::FileOptions::default().compression_method(method)).expect("zip file");
+                w.start_file(file_member_name(id, ext, o, k), zip::write::FileOptions::default().compression_method(method)).expect("zip file");
                 if matches!(mem, Member::StaleFile(..)) {
                     w.write_all(b"outdated content of an earlier member").expect("zip write");
                 } else {
@@ -250,7 +264,7 @@ pub fn make_zip(m: &Model, o: &ArchOpts) -> Vec<u8> {
 
 /// Flips one byte inside the data of one member that is stored verbatim exactly once in the archive.
 /// Returns the damaged copy and the member, or None if no member qualifies.
-pub fn damage_zip(m: &Model, o: &ArchOpts, zbytes: &[u8], k: u16) -> Option<(Vec<u8>, (String, String))> {
+pub fn damage_zip(m: &Model, _o: &ArchOpts, zbytes: &[u8], k: u16) -> Option<(Vec<u8>, (String, String))> {
     let find_all = |needle: &[u8]| -> Vec<usize> { zbytes.windows(needle.len()).enumerate().filter(|(_, w)| *w == needle).map(|(i, _)| i).collect() };
     let cands: Vec<(&(String, String), usize)> = m
         .files
@@ -259,7 +273,8 @@ pub fn damage_zip(m: &Model, o: &ArchOpts, zbytes: &[u8], k: u16) -> Option<(Vec
         .filter_map(|(key, b)| {
             let at = find_all(b);
             // the data of a stored member directly follows its name in the local header
-            let name = member_name(&key.0, Some(&key.1), o.dot_prefix, false);
+            // (members spelled through `zz/../` end with the plain name too)
+            let name = member_name(&key.0, Some(&key.1), false, false);
             (at.len() == 1 && at[0] >= name.len() && &zbytes[at[0] - name.len()..at[0]] == name.as_bytes()).then(|| (key, at[0] + b.len() / 2))
         })
         .collect();
@@ -274,17 +289,19 @@ pub fn damage_zip(m: &Model, o: &ArchOpts, zbytes: &[u8], k: u16) -> Option<(Vec
 
 pub fn make_tar(m: &Model, o: &ArchOpts) -> Vec<u8> {
     let mut b = tar::Builder::new(Vec::new());
-    for mem in members(m, o) {
+    for (k, mem) in members(m, o).into_iter().enumerate() {
         let (name, data, is_dir): (String, Vec<u8>, bool) = match &mem {
             Member::Dir(d) => (member_name(d, None, o.dot_prefix, true), Vec::new(), true),
-            Member::File(id, ext) => (member_name(id, Some(ext), o.dot_prefix, false), m.files[&(id.clone(), ext.clone())].clone(), false),
-            Member::StaleFile(id, ext) => (member_name(id, Some(ext), o.dot_prefix, false), b"outdated content of an earlier member".to_vec(), false),
+            Member::File(id, ext) => (file_member_name(id, ext, o, k), m.files[&(id.clone(), ext.clone())].clone(), false),
+            Member::StaleFile(id, ext) => (file_member_name(id, ext, o, k), b"outdated content of an earlier member".to_vec(), false),
         };
+        // long names go through the builder (GNU long-name members), which refuses `..`: spell those plainly
+        let name = if name.len() > 99 && name.contains("zz/../") { name.replacen("zz/../", "", 1) } else { name };
         let mut h = tar::Header::new_gnu();
         h.set_size(data.len() as u64);
         h.set_mode(if is_dir { 0o755 } else { 0o644 });
         h.set_entry_type(if is_dir { tar::EntryType::Directory } else { tar::EntryType::Regular });
-        if o.dot_prefix && name.len() <= 99 {
+        if (o.dot_prefix || name.contains("/../")) && name.len() <= 99 {
             // the builder normalises "./" away: write the name field by hand
             {
                 let old = h.as_old_mut();
@@ -461,8 +478,9 @@ pub fn arch_opts_strategy() -> impl Strategy<Value = ArchOpts> {
         prop::bool::weighted(0.3),
         prop_oneof![3 => Just(None), 1 => any::<u16>().prop_map(Some)],
         prop_oneof![2 => Just(None), 1 => any::<u16>().prop_map(Some)],
+        prop_oneof![3 => Just(0u16), 1 => any::<u16>()],
     )
-        .prop_map(|(order, dir_members, dot_prefix, deflate_mask, file_backed, stale_duplicate, damage)| ArchOpts { order, dir_members, dot_prefix, deflate_mask, file_backed, stale_duplicate, damage })
+        .prop_map(|(order, dir_members, dot_prefix, deflate_mask, file_backed, stale_duplicate, damage, dotdot_mask)| ArchOpts { order, dir_members, dot_prefix, deflate_mask, file_backed, stale_duplicate, damage, dotdot_mask })
 }
 
 pub fn tmpdir(tag: &str) -> PathBuf {
